@@ -12,6 +12,7 @@ pub mod c14;
 pub mod c15;
 pub mod c16;
 pub mod c17;
+pub mod c19;
 
 pub fn run(ctx: &Ctx) -> Report {
   match ctx.prop.as_str() {
@@ -28,6 +29,7 @@ pub fn run(ctx: &Ctx) -> Report {
     "C15" => c15::run(ctx),
     "C16" => c16::run(ctx),
     "C17" => c17::run(ctx),
+    "C19" => c19::run(ctx),
     other => {
       eprintln!("no harness for property {other}");
       std::process::exit(2);
